@@ -227,6 +227,10 @@ def build_unit(unit, log):
         sig = re.sub(r'^pub\s+', '', sig)   # trait impl methods carry no visibility
     elif not re.match(r'pub\b', sig):
         sig = 'pub ' + sig          # R0: visibility widened
+    mfn = re.search(r'\bfn\s+(\w+)', sig)
+    if mfn:
+        meta['src_fn'] = unit['fn']
+        meta['fn'] = mfn.group(1)      # the emitted name (R2 hoisting may rename)
     sig = _name_return(sig, unit.get('ret', 'r'))
     contract = unit.get('contract', '').strip('\n')
 
